@@ -166,12 +166,16 @@ def generate(rng, tier):
             kind = "absent" if c < 0.35 else "file" if c < 0.75 else "readonly" if c < 0.82 else "dir" if c < 0.88 else "symlink" if c < 0.95 else "dangling"
         else:
             kind = "absent" if c < 0.55 else "file" if c < 0.85 else "readonly" if c < 0.9 else "dir" if c < 0.95 else "symlink"
+        if kind == "file" and rng.random() < 0.2:
+            kind = "empty"  # an existing zero-length file is an existing file
         pre[n] = kind
     dirs = ["home", "run", "out", "src/B/C", "data"]
     symlinks = {}
     for n, kind in pre.items():
         if kind == "file":
             files["out/" + n] = "precious %s %d\n" % (n, rng.randint(0, 999))
+        elif kind == "empty":
+            files["out/" + n] = ""
         elif kind == "readonly":
             files["out/" + n] = {"text": "readonly %s\n" % n, "mode": 0o444}
         elif kind == "dir":
